@@ -19,7 +19,7 @@ THEOREMS = [
     "ids_fresh", "ids_fresh_round", "counter_advance", "quat_matrix_orthogonal", "quat_matrix_orthogonal_cols",
     "quat_maps_normal", "quat_norm_zero_iff", "quat_degenerate", "map_roundtrip", "identity_case_sound",
     "rank_injOn", "rebase_inv", "failure_leaves_population", "round_survivors", "run_events_as_modelled",
-    "stage_order_as_modelled", "edge_plane_on_plane", "edge_plane_on_segment", "nonvacuous",
+    "stage_order_as_modelled", "face_side_spec", "edge_plane_on_plane", "edge_plane_on_segment", "nonvacuous",
 ]
 GEN = ["Division", "RemeshConsts"]
 
@@ -225,6 +225,13 @@ class Runner:
                 self.faces = U.parse_faces(a[3:])
                 self.wf = extra.strip() == "true"
                 self.count("divfaces_wf_" + extra.strip())
+                if self.wf and self.state is not None:
+                    # the cut mother is still a closed genus-0 surface made of triangles only (divide_faces_preserves_surface)
+                    bad = [] if all(len(f) == 3 for f in self.faces) else ["a face is not a triangle after divide_faces"]
+                    bad = bad or U.topo_oracle([tuple(f) for f in self.faces], "surface after divide_faces")
+                    self.count("divfaces_oracle_checked")
+                    for b in bad[:1]:
+                        self.fail("divide_faces (two intersection points at cyclic distance 2 in every cut face): " + b)
         elif op == "mapxy":
             if a.startswith("ok"):
                 self.iface_pts = U.parse_nodes(a.split(" | ")[1])
@@ -621,7 +628,7 @@ def run(ctx):
             V.fail_tie("proof", "leanchecker rejected SimuVerif.Properties.C09", log=log)
     exe, drv, rebuilt = U.build()
     widen = 1 if proof["ok"] else 3
-    n_stage, n_poly, n_div, n_round, n_kern = (60, 30, 50, 8, 25) if tier == "quick" else (700, 300, 700, 90, 300)
+    n_stage, n_poly, n_div, n_round, n_kern = (60, 30, 50, 8, 25) if tier == "quick" else (600, 300, 600, 80, 300)
     S = U.Session(exe, drv)
     R = Runner(S)
     r = Rng(seed)
